@@ -92,9 +92,6 @@ func run13(c *case13, res *result) {
 				model.PutLog(l)
 			}
 		}
-		if st.VerifLen() == 0 {
-			return nil
-		}
 		live := model.DropTombstones()
 		want := live.Expire(c.Expiry[0], c.Expiry[1], c.Expiry[2])
 		dropped := len(live.Logs) - len(want.Logs)
@@ -173,6 +170,7 @@ func runC13(tier string, wi, wn int, res *result) {
 		}
 	}
 	rec(nil)
+	stacks = append(stacks, [][2]int{}) // the empty stack: expiry must be a no-op, not a failure
 	timesL := []uint64{0, 5, 10, 15, 20, 25, 30, 35, 40}
 	idxL := []uint64{0, 1, 2, 3, 4, 7}
 	shas := []bool{false}
